@@ -146,6 +146,13 @@ Proof.
   rewrite skipn_all2; [apply app_nil_r|]. rewrite app_length, skipn_length. lia.
 Qed.
 
+Lemma in_firstn : forall (n : nat) (l : list Z) x, In x (firstn n l) -> In x l.
+Proof. induction n as [|n IH]; intros [|h t] x H; simpl in *; try tauto. destruct H; [now left | right; now apply IH]. Qed.
+Lemma in_skipn : forall (n : nat) (l : list Z) x, In x (skipn n l) -> In x l.
+Proof. induction n as [|n IH]; intros [|h t] x H; simpl in *; try tauto. right; now apply IH. Qed.
+Lemma in_slice : forall lo hi (l : list Z) x, In x (slice lo hi l) -> In x l.
+Proof. intros lo hi l x H. unfold slice in H. apply in_firstn in H. now apply in_skipn in H. Qed.
+
 Lemma find_put_same : forall a l, find_arr (a_name a) (put_arr a l) = Some a.
 Proof.
   intros a l. induction l as [|b r IH]; simpl.
@@ -270,7 +277,7 @@ Section RWProofs.
     rewrite Hf. rewrite Z.eqb_refl. simpl negb. rewrite Ht, dtype_eqb_refl. simpl negb. cbv iota.
     rewrite slice_all by exact Hl.
     rewrite to_file_c_cast by assumption.
-    eexists. split; [reflexivity|]. rewrite Ht.
+    eexists. split; [reflexivity|]. rewrite ?Ht.
     exact (find_put_same (mkArr name s (a_dim a) (splice rmin (map (c_cast m s) mem) (a_data a))) _).
   Qed.
 
@@ -304,12 +311,12 @@ Section RWProofs.
   Proof.
     intros be a rmin rmax m mem memf Hs H1 H2 H3 Hd Hl Hlf Hr.
     assert (Hsub : forall lo hi, all_repr (a_type a) m (slice lo hi (a_data a))).
-    { intros lo hi u Hu. apply Hr. unfold slice in Hu. apply firstn_In in Hu. revert Hu. apply skipn_In. }
+    { intros lo hi u Hu. apply Hr. now apply in_slice in Hu. }
     exists (map (c_cast (a_type a) m) (a_data a)). split.
-    - replace (a_dim a) with (a_dim a - 1 + 1) at 2 3 4 by lia.
-      rewrite read_converted; try lia; auto.
-      + now rewrite slice_all.
-      + replace (a_dim a - 1 + 1) with (a_dim a) by lia. auto.
+    - assert (Hdim : 1 <= a_dim a) by lia.
+      pose proof (read_converted be a 1 (a_dim a) m memf Hs (Z.le_refl 1) Hdim (Z.le_refl _) Hd) as Hfull.
+      replace (a_dim a - 1 + 1) with (a_dim a) in Hfull by lia.
+      rewrite Hfull; auto. now rewrite slice_all.
     - rewrite read_converted; auto. now rewrite slice_map.
   Qed.
 
@@ -328,10 +335,8 @@ Section RWProofs.
     assert (Hn2 : 1 <= n2) by (subst n2; destruct mem2; [congruence | simpl length; lia]).
     (* first part: creates the node *)
     unfold general_write at 1.
-    replace n1 with (n1 - 1 + 1) at 2 3 4 by lia.
-    rewrite (verify_write_ok (n1 + n2) 1 n1 (n1 - 1 + 1)) by lia.
+    rewrite (verify_write_ok (n1 + n2) 1 n1 n1) by lia.
     rewrite Hnew. simpl a_type; simpl a_dim; simpl a_data.
-    replace (n1 - 1 + 1) with n1 by lia.
     rewrite slice_all by reflexivity.
     rewrite to_file_c_cast by assumption.
     set (a1 := mkArr name s (n1 + n2) (splice 1 (map (c_cast m s) mem1) (repeat 0 (Z.to_nat (n1 + n2))))).
@@ -381,3 +386,62 @@ Section RWProofs.
     - now rewrite map_c_cast_same.
   Qed.
 End RWProofs.
+
+(* ------------------------------------------------------------------ the statements exported by Properties_C06.v,
+   for any table that passes the check on all 49 ordered pairs *)
+Section Exported.
+  Variable tb : cast_tab.
+  Hypothesis Hok : forallb (row_is_c_cast tb) all_pairs = true.
+
+  Lemma tb_converts : forall f t data, supported f t = true -> convert_data tb f t data = Some (map (c_cast f t) data).
+  Proof. intros. apply (table_convert_data tb all_pairs Hok); [apply in_all_pairs | assumption]. Qed.
+
+  Lemma table_is_C : forall f t,
+    (supported f t = true ->
+       (forall u, arm_action (lookup_arm tb f t) f t u = CVal (c_cast f t u)) /\
+       (forall data, convert_data tb f t data = Some (map (c_cast f t) data))) /\
+    (supported f t = false <-> lookup_arm tb f t = ArmErr) /\
+    (supported f t = false -> forall data, convert_data tb f t data = None).
+  Proof.
+    intros f t. pose proof (in_all_pairs f t) as Hin. split; [|split].
+    - intros Hs. split; intros.
+      + now apply (table_action tb all_pairs Hok).
+      + now apply tb_converts.
+    - now apply (table_error_iff tb all_pairs Hok).
+    - intros Hs data. now apply (table_convert_data_err tb all_pairs Hok).
+  Qed.
+
+  Section WithH.
+    Variable hconv : dtype -> dtype -> Z -> Z.
+    Hypothesis Hh : forall f t u, representable f t u = true -> hconv f t u = c_cast f t u.
+    Definition stored_type_new_h := write_new_stored hconv tb tb_converts Hh.
+    Definition stored_existing_h := write_existing_stored hconv tb tb_converts Hh.
+    Definition read_is_converted_h := read_converted hconv tb tb_converts Hh.
+    Definition partial_read_agrees_h := read_partial_is_slice_of_full hconv tb tb_converts Hh.
+    Definition partial_write_agrees_h := write_in_two_parts hconv tb tb_converts Hh.
+    Definition int_helpers_are_casts_h := int_helpers_converted hconv tb tb_converts Hh.
+  End WithH.
+  Definition stored_type_new := stored_type_new_h.
+  Definition stored_existing := stored_existing_h.
+  Definition read_is_converted := read_is_converted_h.
+  Definition partial_read_agrees := partial_read_agrees_h.
+  Definition partial_write_agrees := partial_write_agrees_h.
+  Definition int_helpers_are_casts := int_helpers_are_casts_h.
+  Definition read_as_is_converted := read_as_converted tb tb_converts.
+End Exported.
+
+(* ------------------------------------------------------------------ round trips *)
+Ltac Zify.zify_post_hook ::= Z.div_mod_to_equations.
+
+Lemma roundtrip_I4_I8 : forall u, 0 <= u < 2 ^ 32 -> c_cast I8 I4 (c_cast I4 I8 u) = u.
+Proof.
+  intros u Hu. unfold c_cast, conv, conv_scalar, wrapu, sgn. simpl ctype_of. simpl ctype_eqb. simpl cbits.
+  change (2 ^ 32) with 4294967296 in *. change (2 ^ (32 - 1)) with 2147483648.
+  change (2 ^ 64) with 18446744073709551616. change (2 ^ (64 - 1)) with 9223372036854775808.
+  destruct (Z.ltb_spec u 2147483648).
+  - rewrite (Z.mod_small u) by lia. destruct (Z.ltb_spec u 9223372036854775808); [|lia]. apply Z.mod_small; lia.
+  - replace ((u - 4294967296) mod 18446744073709551616) with (u - 4294967296 + 18446744073709551616).
+    2:{ symmetry. apply Z.mod_unique with (-1); lia. }
+    destruct (Z.ltb_spec (u - 4294967296 + 18446744073709551616) 9223372036854775808); [lia|].
+    apply Z.mod_unique with (-1); lia.
+Qed.
